@@ -8,7 +8,9 @@ every module (the names S makes visible inside it) inserted.
 Input (one token list per line):
   case <id> | module <k> | def <name> | prov <name> | cprov <name> | req <spec> | view <name>… | end
   request | req <spec> | def <name> | mode ok|syntax|freeid|runtime | obs <name>… | end | endcase
-  <spec> ::= <k> | p:<prefix>:<spec> | o:<id>[=<to>],…:<spec>
+  <spec> ::= <k>[~<spelling>] | p:<prefix>:<spec> | o:<id>[=<to>],…:<spec>
+  `dir <sub/dir>` (in a module) and `~<spelling>` only tell the harness where the file is put and how the
+  path in the require form is written; a module is identified by its canonical path, i.e. by `k`.
 -/
 import SteelVerif.C14.Model
 namespace SteelVerif.C14
@@ -21,7 +23,7 @@ def parseIds (s : String) : List (Name × Option Name) :=
 
 def parseSpecFields : Nat → List String → Option Spec
   | 0, _ => none
-  | _ + 1, [n] => n.toNat?.map Spec.path
+  | _ + 1, [n] => ((n.splitOn "~").headD "").toNat?.map Spec.path   -- `k~spelling`: same file, same module
   | fuel + 1, "p" :: pfx :: rest => (parseSpecFields fuel rest).map (Spec.prefixIn pfx.toList)
   | fuel + 1, "o" :: ids :: rest => (parseSpecFields fuel rest).map (fun s => Spec.onlyIn s (parseIds ids))
   | _, _ => none
@@ -61,6 +63,7 @@ def feed (p : PState) (l : String) : PState :=
   | ["case", id], _ => { p with cur := { id := id, raw := [l] }, ctx := .none }
   | ["module", _], _ => { p with ctx := .inModule, m := ⟨[], [], [], []⟩ }
   | ["request"], _ => { p with ctx := .inRequest, r := { specs := [] } }
+  | ["dir", _], .inModule => p     -- where the file lives: irrelevant to the module's identity
   | ["def", n], .inModule => { p with m := { p.m with defs := p.m.defs ++ [n.toList] } }
   | ["prov", n], .inModule => { p with m := { p.m with provs := p.m.provs ++ [⟨n.toList, false⟩] } }
   | ["cprov", n], .inModule => { p with m := { p.m with provs := p.m.provs ++ [⟨n.toList, true⟩] } }
@@ -92,8 +95,9 @@ def showOrigin : Origin → String
   | .top i => s!"top{i}"
 
 /-- Convention of the generators: a definition whose name starts with `f` or `g` is a one-argument
-function returning its tag, every other definition is the tag itself. -/
-def isFn (n : Name) : Bool := n.head? == some 'f' || n.head? == some 'g'
+function returning its tag, `h2`..`h6` a function of that many parameters taking a callback first,
+every other definition is the tag itself. -/
+def isFn (n : Name) : Bool := n.head? == some 'f' || n.head? == some 'g' || n.head? == some 'h'
 
 def showVal (v : Val) : String :=
   let t := s!"{showOrigin v.origin}.{showName v.name}"
